@@ -25,6 +25,7 @@ def run(ctx):
     thorough, seed = ctx["thorough"], ctx["seed"]
     total = {"evaluations": 0, "disagreements": [], "violations": [], "streams": {}, "distribution": {}, "distinct_nontrivial": 0}
     for name, rr in (("locs", locs.check(seed, 60000 if thorough else 1500)),
+                     ("oploc", locs.check_oploc(seed + 2, 40000 if thorough else 1500)),
                      ("locmodel", locs.check_model(seed + 1, 150000 if thorough else 3000))):
         total["evaluations"] += rr["evaluations"]
         total["distinct_nontrivial"] += rr.get("distinct", 0)
